@@ -123,6 +123,16 @@ Theorem C03_host_setter_repr : forall u file H, scheme u <> [] -> is_some (uhost
   repr_of (set_host u (Some H)).
 Proof. exact host_setter_repr. Qed.
 
+(* host / hostname setter on a URL whose host is null (a:/p -> a://h/p, a:/.//p -> a://h//p): "://" is inserted
+   (pieces SCHEME_SEP..HOST are replaced at once with len0 = 3), the "/." prefix, if there is one, is removed *)
+Theorem C03_host_setter_null_repr : forall u file H,
+  scheme u <> [] -> uhost u = None -> username u = [] -> password u = [] -> port u = None ->
+  path_serialize u <> [] ->
+  s_r (run true (init_sst (repr_of u) file)
+         [OHostStart; OAppend (host_serialize H); OHostDone (host_type_num H)]) =
+  repr_of (set_host u (Some H)).
+Proof. exact host_setter_null_repr. Qed.
+
 (* protocol setter: start_scheme, the new scheme, save_scheme - piece 0 is replaced, every later offset moves by the
    difference of the lengths, the cached is_file_scheme() follows the new scheme *)
 Theorem C03_setter_protocol_pieces : forall ps n f c file sch,
@@ -210,6 +220,7 @@ Print Assumptions C03_port_setter_repr.
 Print Assumptions C03_username_setter_repr.
 Print Assumptions C03_password_setter_repr.
 Print Assumptions C03_host_setter_repr.
+Print Assumptions C03_host_setter_null_repr.
 Print Assumptions C03_setter_protocol_pieces.
 Print Assumptions C03_hash_clear_repr.
 Print Assumptions C03_search_clear_repr.
